@@ -24,8 +24,14 @@ WINDOWS = {0: (160, 40, 0), 1: (160, 40, 0), 2: (160, 40, 0), 3: (160, 40, 0), 6
 
 
 def fmt_exp(exp):
-    return "E:" + "|".join(",".join(str(x) for x in ([e["instr"], e["resume"], e["sp"], e["trust"]] + ([e["fp"]] if "fp" in e else [])))
-                           for e in exp) if exp else "E:-"
+    def one(e):
+        f = [e["instr"], e["resume"], e["sp"], e["trust"]]
+        if "valid" in e:
+            f += [e.get("fp", "-"), e["valid"]]
+        elif "fp" in e:
+            f += [e["fp"]]
+        return ",".join(str(x) for x in f)
+    return "E:" + "|".join(one(e) for e in exp) if exp else "E:-"
 
 
 def parse_exp(case):
@@ -38,10 +44,36 @@ def parse_exp(case):
     for f in tok[2:].split("|"):
         p = f.split(",")
         e = dict(instr=int(p[0]), resume=int(p[1]), sp=int(p[2]), trust=p[3])
-        if len(p) > 4:
+        if len(p) > 4 and p[4] != "-":
             e["fp"] = int(p[4])
+        if len(p) > 5:
+            e["valid"] = p[5]
         out.append(e)
     return out
+
+
+# the documented register sets (ABI callee-saved registers each unwinder forwards through a CFI frame; the names a scan
+# / the CFI walker marks valid) -- written down here, NOT read from the sources
+CALLEE_SAVED = {0: ["ebp", "ebx", "edi", "esi"], 1: ["rbx", "rbp", "r12", "r13", "r14", "r15"],
+                2: ["r4", "r5", "r6", "r7", "r8", "r9", "r10", "fp"],
+                3: ["x%d" % i for i in range(19, 29)] + ["fp"], 4: ["s%d" % i for i in range(8)] + ["gp", "sp", "fp"]}
+CALLEE_SAVED[5] = CALLEE_SAVED[4]
+CALLEE_SAVED[6] = CALLEE_SAVED[3]
+CFI_SP_IP = {0: ["esp", "eip"], 1: ["rsp", "rip"]}
+SCAN_VALID = {0: ["eip", "esp"], 1: ["rip", "rsp"], 2: ["r15", "r13"]}
+
+
+def add_expected_validity(arch, exp):
+    """validity set of every generated call of a CFI / scan stack whose context has all registers valid: a CFI frame
+    keeps the callee-saved registers that were valid in its callee and adds sp and pc; a scanned frame has pc and sp only"""
+    v = None        # None = all valid
+    for e in exp:
+        if e["trust"] == "cfi":
+            v = set(n for n in CALLEE_SAVED[arch] if v is None or n in v) | set(CFI_SP_IP.get(arch, ["sp", "pc"]))
+        else:
+            v = set(SCAN_VALID.get(arch, ["pc", "sp"]))
+        e["valid"] = "+".join(sorted(v))
+    return exp
 
 
 def mixed_stack(rng, arch, os_, depth):
@@ -81,7 +113,7 @@ def mixed_stack(rng, arch, os_, depth):
             sp += (gap + 1) * pw
         exp.append(dict(instr=ra - adj, resume=ra, sp=sp, trust=t))
     case = fmt_case(arch, os_, ip0, base, 0, 0, [0] * A["ngp"], "*", base, data, mods)
-    return case, exp
+    return case, add_expected_validity(arch, exp)
 
 
 WIN_PROGRAM_KEEP_EBP = "$T0 .raSearchStart = $eip $T0 ^ = $esp $T0 4 + = $ebp $ebp ="
@@ -262,6 +294,9 @@ def c04_oracle(case, ans):
                     i + 1, k, f[k], e[k], f["resume"], f["sp"], f["trust"], e["resume"], e["sp"], e["trust"])
         if "fp" in e and f["fp"] != e["fp"]:
             return "call %d: recovered frame pointer %d, generated %d" % (i + 1, f["fp"], e["fp"])
+        if "valid" in e and "+".join(sorted(f["valid"].split("+"))) != e["valid"]:
+            return "call %d (%s): registers marked recovered are %s, the calling convention gives %s" % (
+                i + 1, e["trust"], f["valid"], e["valid"])
     if len(fr) > len(exp):
         return "the walk did not stop at the generated end of stack: %d extra frame(s), first has return address %d" % (
             len(fr) - len(exp), fr[len(exp)]["resume"])
@@ -452,7 +487,7 @@ class C04(PropBase):
             if wf != "1":
                 self.not_wf = getattr(self, "not_wf", 0) + 1
             mine = "|".join("%d,%d,%d,%s" % (e["instr"], e["resume"], e["sp"], e["trust"]) for e in exp)
-            cases.append(case + " " + fmt_exp(exp))
+            cases.append(case + " " + fmt_exp(add_expected_validity(int(case.split(" ", 1)[0]), exp)))
             if chain != mine:
                 self.chain_diff.append((cases[-1], chain[:200], mine[:200]))
         return cases
